@@ -34,8 +34,8 @@ def gen_case(rng):
     # a zero or arbitrary stride on the unit axis, flagged contiguous BOTH ways), a column range of a wider table, one
     # column broadcast over N sensors (stride 0)
     r_lay = pyrandom.Random(rng.getrandbits(32))
-    if r_lay.random() < 0.2:
-        kind = r_lay.choice(["unit-dim", "unit-dim", "colslice", "broadcast"])
+    if r_lay.random() < 0.25:
+        kind = r_lay.choice(["unit-dim", "unit-dim", "colslice", "broadcast", "bigendian", "bigendian"])
         if kind == "unit-dim":
             N = 1
     series = []
@@ -44,6 +44,8 @@ def gen_case(rng):
         T = same_T if same_T is not None else W + rng.choice([0, 0, 1, 2, rng.randint(0, 40)])
         if kind in ("bits", "fortran", "strided", "reversed", "unit-dim", "colslice"):
             cells = [[rng.getrandbits(64) for _ in range(N)] for _ in range(T)]
+        elif kind == "bigendian":
+            cells = [[rng.randint(-1000, 1000) for _ in range(N)] for _ in range(T)]
         elif kind == "broadcast":
             cells = [[rng.getrandbits(64)] * N for _ in range(T)]
         elif kind == "cancel":
@@ -105,6 +107,10 @@ def to_array(cells, kind):
         elif kind == "reversed":           # negative strides
             a = np.ascontiguousarray(a[::-1, ::-1])[::-1, ::-1]
         return a
+    if kind == "bigendian":
+        # arrays in the OTHER byte order (what FITS / NetCDF / np.fromfile readers hand over): same values, swapped storage
+        dt = [">f8", ">f4", ">i4", ">i8", ">i2"][len(cells) % 5]
+        return (np.array(cells, dtype=np.float64) / (8.0 if dt[1] == "f" else 1.0)).astype(dt)
     if kind == "float32":
         return np.array(cells, dtype=np.float32) / np.float32(8)
     return np.array(cells, dtype=np.int64)
